@@ -580,6 +580,12 @@ func anyOfMembers(tier string, cfg gen.Config) []member {
 				Spec: &fam.Spec{Kind: "any", AnyOf: []*fam.Spec{{Kind: "string", Kw: []string{"minLength"}}, {Kind: "integer", NoType: true, Kw: []string{"minimum"}}}}}}}})
 			out = append(out, member{name: "anyOf of a boolean branch and an untyped object branch", cfg: cfg, root: &fam.Spec{Kind: "object", Props: []*fam.Prop{{Label: "u",
 				Spec: &fam.Spec{Kind: "any", AnyOf: []*fam.Spec{{Kind: "boolean"}, {Kind: "object", NoType: true, Props: []*fam.Prop{{Label: "t", Spec: &fam.Spec{Kind: "integer"}}}}}}}}}})
+			// two inline branches that declare the SAME property with different keywords: each branch type enforces its own branch's
+			// keywords only (a value one branch accepts is accepted, whatever the merged view of that property looks like)
+			out = append(out, member{name: "anyOf branches declaring one property with different keywords", cfg: cfg, root: &fam.Spec{Kind: "object", Props: []*fam.Prop{{Label: "u", Required: true,
+				Spec: &fam.Spec{Kind: "object", AnyOf: []*fam.Spec{
+					{Kind: "object", Props: []*fam.Prop{{Label: "text", Spec: &fam.Spec{Kind: "string", Kw: []string{"maxLength"}}, Required: true}}},
+					{Kind: "object", Props: []*fam.Prop{{Label: "text2", SameAs: "text", Spec: &fam.Spec{Kind: "string", Kw: []string{"minLength"}}, Required: true}}}}}}}}})
 			// an anyOf DEFINITION that two properties refer to (one type, generated once)
 			var bs3 []*fam.Spec
 			for i := 0; i < n; i++ {
